@@ -323,3 +323,325 @@ Print Assumptions C17_prediction_history_independent.
 Example C17_history_instance : forall op,
   nth 1 (map (run_op c17_env c17_unit_key_schema) [op; op; op]) (Ls []) = run_op c17_env c17_unit_key_schema op.
 Proof. intro op. exact (C17_prediction_history_independent c17_env c17_unit_key_schema [op] op [op]). Qed.
+
+(* ======================================================================================================
+   The STRUCT layer (Schema/XOps.v: NewStructMappedObjectSchema[T] / [*T]): single-fault path theorems for
+   struct-mapped objects (Proofs/C17Struct.v; non-vacuity on the harness struct family: Proofs/C17StructEx.v).
+   The segment is always the PROPERTY ID (the json tag), never the Go field name (seeded change C17-m4); the
+   statements are over the field the descriptor resolves (fr_idx / fr_nidx), so promoted fields of embedded
+   structs are covered (C17_struct_promoted_instance).  Properties are evaluated in property order in the model
+   and in Go map order in the SDK: the premises below ask only the properties BEFORE the faulty one to be fine,
+   which a single fault (all others accepted) satisfies in every order.
+   ====================================================================================================== *)
+From Verif Require Import Base.XReflect Schema.XSyntax Schema.XOps Proofs.XStruct Proofs.XPaths Proofs.XExamples
+  Proofs.C17Struct Proofs.C17StructEx.
+Open Scope list_scope.
+
+(* convertData (declared defaults, sub-object default propagation) keeps every entry the caller supplied *)
+Theorem C17_struct_supplied_value_kept : forall f e props mapped r0 rd k x,
+  xobj_data f e props mapped r0 = Ok rd -> alookup k r0 = Some x -> alookup k rd = Some x.
+Proof. exact xobj_data_supplied. Qed.
+Print Assumptions C17_struct_supplied_value_kept.
+
+(* (a) Unserialize: the raw map supplies for `name` a value x on which the property type fails with er; the
+   properties before it are fine on the data after convertData (rd); the object (T, *T or map-based: `mapped`)
+   fails with the property id in front of er's path *)
+Theorem C17_struct_unserialize_path : forall words pu f e id un ps1 name p ps2 mapped t nl r rd x er,
+  Forall (fun kv => amem (fst kv) (ps1 ++ (name, p) :: ps2) = true) r ->
+  NoDup (map fst (ps1 ++ (name, p) :: ps2)) ->
+  xobj_data f e (ps1 ++ (name, p) :: ps2) mapped r = Ok rd ->
+  Forall (xprop_fine words pu f e rd) ps1 ->
+  alookup name r = Some x -> p_disabled p = false ->
+  xunser words pu f e (p_type p) x = Err er ->
+  xunser words pu (S f) e (XObject id un (ps1 ++ (name, p) :: ps2) mapped) (obj_val t nl r) = Err (add_seg name er).
+Proof. exact struct_unser_prop_error_supplied. Qed.
+Print Assumptions C17_struct_unserialize_path.
+
+(* the same when the offending value is a DEFAULT (declared or propagated from a sub-object): x is what
+   convertData put under `name` *)
+Theorem C17_struct_unserialize_path_data : forall words pu f e id un ps1 name p ps2 mapped t nl r rd x er,
+  Forall (fun kv => amem (fst kv) (ps1 ++ (name, p) :: ps2) = true) r ->
+  NoDup (map fst (ps1 ++ (name, p) :: ps2)) ->
+  xobj_data f e (ps1 ++ (name, p) :: ps2) mapped r = Ok rd ->
+  Forall (xprop_fine words pu f e rd) ps1 ->
+  alookup name rd = Some x -> p_disabled p = false ->
+  xunser words pu f e (p_type p) x = Err er ->
+  xunser words pu (S f) e (XObject id un (ps1 ++ (name, p) :: ps2) mapped) (obj_val t nl r) = Err (add_seg name er).
+Proof. exact struct_unser_prop_error. Qed.
+Print Assumptions C17_struct_unserialize_path_data.
+
+Example C17_struct_unserialize_instance :
+  xunser w_words w_pu 12 c17s_env c17s_nested (obj_val t_any_map false c17s_raw) = Err (mkErr true ["p"; "b"] EBound) /\
+  xunser w_words w_pu 12 c17s_env c17s_inner (obj_val t_any_map false [("b", vstr "q")]) = Err (mkErr true ["b"] EBound).
+Proof. exact (conj c17s_unser_ex c17s_unser_inner_ex). Qed.
+
+(* a member that is NOT struct-mapped (embed s0): the map-based position relation carries over (x_embed_unser) *)
+Theorem C17_struct_unserialize_path_embedded_member :
+  forall words pu st e0 f id un ps1 name p ps2 mapped t nl r rd x s0 q,
+  Forall (fun kv => amem (fst kv) (ps1 ++ (name, p) :: ps2) = true) r ->
+  NoDup (map fst (ps1 ++ (name, p) :: ps2)) ->
+  xobj_data f (embed_env st e0) (ps1 ++ (name, p) :: ps2) mapped r = Ok rd ->
+  Forall (xprop_fine words pu f (embed_env st e0) rd) ps1 ->
+  alookup name rd = Some x -> p_disabled p = false ->
+  p_type p = embed s0 -> fault_uo words pu e0 f s0 x q ->
+  exists c, xunser words pu (S f) (embed_env st e0) (XObject id un (ps1 ++ (name, p) :: ps2) mapped) (obj_val t nl r)
+            = Err (mkErr true (name :: q) c).
+Proof. exact struct_unser_prop_fault_embedded. Qed.
+Print Assumptions C17_struct_unserialize_path_embedded_member.
+
+(* (b) Validate / Serialize on a native struct value v (xstruct_arg: exactly a T, non-nil when T = *S): the field
+   value x of property `name` (xfield_value: FieldByName, dereferenced, not absent / not treated as empty) is
+   rejected with er; the present fields of the properties before it are accepted.  The presence rules are checked
+   after the fields and play no part. *)
+Theorem C17_struct_validate_path : forall words pu f e id un ps1 name p ps2 si v sv x er,
+  xstruct_arg si v = Some sv ->
+  has_fields si ps1 ->
+  (forall np y, In np ps1 -> xfield_value e si sv np = Some y -> xvalidate words pu f e (p_type (snd np)) y = Ok tt) ->
+  xfield_value e si sv (name, p) = Some x ->
+  xvalidate words pu f e (p_type p) x = Err er ->
+  xvalidate words pu (S f) e (XObject id un (ps1 ++ (name, p) :: ps2) (Some si)) v = Err (add_seg name er).
+Proof. exact struct_validate_prop_error. Qed.
+Print Assumptions C17_struct_validate_path.
+
+Theorem C17_struct_serialize_path : forall words pu f e id un ps1 name p ps2 si v sv x er,
+  xstruct_arg si v = Some sv ->
+  has_fields si ps1 ->
+  (forall np y, In np ps1 -> xfield_value e si sv np = Some y -> exists w, xserialize words pu f e (p_type (snd np)) y = Ok w) ->
+  xfield_value e si sv (name, p) = Some x ->
+  xserialize words pu f e (p_type p) x = Err er ->
+  xserialize words pu (S f) e (XObject id un (ps1 ++ (name, p) :: ps2) (Some si)) v = Err (add_seg name er).
+Proof. exact struct_serialize_prop_error. Qed.
+Print Assumptions C17_struct_serialize_path.
+
+Example C17_struct_native_instance :
+  xvalidate w_words w_pu 12 c17s_env c17s_nested c17s_native = Err (mkErr true ["p"; "b"] EBound) /\
+  xserialize w_words w_pu 12 c17s_env c17s_nested c17s_native = Err (mkErr true ["p"; "b"] EBound).
+Proof. exact (conj c17s_validate_ex c17s_serialize_ex). Qed.
+
+(* a promoted field: XEmbPtr{*XInner{A: -5}; C: 2}, "a" >= 0 mapped to the field A of the embedded *XInner *)
+Example C17_struct_promoted_instance :
+  xvalidate w_words w_pu 12 c17s_env c17s_emb c17s_emb_native = Err (mkErr true ["a"] EBound).
+Proof. exact c17s_validate_promoted_ex. Qed.
+
+(* (c) the faults of the struct layer itself.  Unserialize: an undeclared key and a non-map are reported at the
+   object (empty path, as for map-based objects: the family's expectation is computed on the map-based twin); a
+   violated presence rule at the declaring property; unserializeToStruct can only fail with "Field cannot be set"
+   at one of the properties it assigns. *)
+Theorem C17_struct_unserialize_unknown_key : forall words pu f e id un props mapped t nl r1 k x r2,
+  Forall (fun kv => amem (fst kv) props = true) r1 -> amem k props = false ->
+  xunser words pu (S f) e (XObject id un props mapped) (obj_val t nl (r1 ++ (k, x) :: r2)) = Err (cerr EKey).
+Proof. exact struct_unser_unknown_key. Qed.
+Print Assumptions C17_struct_unserialize_unknown_key.
+
+Theorem C17_struct_unserialize_not_a_map : forall words pu f e id un props mapped v,
+  (forall t nl l, v <> VMap t nl l) -> (forall name p, props <> [(name, p)]) ->
+  xunser words pu (S f) e (XObject id un props mapped) v = Err (cerr ERepr).
+Proof. exact struct_unser_not_a_map. Qed.
+Print Assumptions C17_struct_unserialize_not_a_map.
+
+Theorem C17_struct_unserialize_rule : forall words pu f e id un ps1 name p ps2 mapped t nl r0 rd,
+  Forall (fun kv => amem (fst kv) (ps1 ++ (name, p) :: ps2) = true) r0 ->
+  NoDup (map fst (ps1 ++ (name, p) :: ps2)) ->
+  xobj_data f e (ps1 ++ (name, p) :: ps2) mapped r0 = Ok rd ->
+  Forall (xprop_fine words pu f e rd) (ps1 ++ (name, p) :: ps2) ->
+  Forall (fun np => xcheck_prop_rules (fun k => amem k rd) (fst np) (snd np) = Ok tt) ps1 ->
+  xcheck_prop_rules (fun k => amem k rd) name p <> Ok tt ->
+  xunser words pu (S f) e (XObject id un (ps1 ++ (name, p) :: ps2) mapped) (obj_val t nl r0) = Err (cerr_at [name] EPresence).
+Proof. exact struct_unser_rule. Qed.
+Print Assumptions C17_struct_unserialize_rule.
+
+Theorem C17_struct_unserialize_missing_required : forall words pu f e id un ps1 name p ps2 mapped t nl r0 rd,
+  Forall (fun kv => amem (fst kv) (ps1 ++ (name, p) :: ps2) = true) r0 ->
+  NoDup (map fst (ps1 ++ (name, p) :: ps2)) ->
+  xobj_data f e (ps1 ++ (name, p) :: ps2) mapped r0 = Ok rd ->
+  Forall (xprop_fine words pu f e rd) (ps1 ++ (name, p) :: ps2) ->
+  Forall (fun np => xcheck_prop_rules (fun k => amem k rd) (fst np) (snd np) = Ok tt) ps1 ->
+  p_required p = true -> amem name rd = false ->
+  xunser words pu (S f) e (XObject id un (ps1 ++ (name, p) :: ps2) mapped) (obj_val t nl r0) = Err (cerr_at [name] EPresence).
+Proof. exact struct_unser_missing_required. Qed.
+Print Assumptions C17_struct_unserialize_missing_required.
+
+Theorem C17_struct_field_cannot_be_set_path : forall e si r er,
+  xto_struct e si r = Err er -> exists k, In k (map fst r) /\ er = cerr_at [k] EOther.
+Proof. exact struct_to_struct_error_path. Qed.
+Print Assumptions C17_struct_field_cannot_be_set_path.
+
+(* Validate / Serialize: a value that is not exactly a T (another Go type, a map, a nil *T) is reported at the
+   object; a violated presence rule - every present field accepted - at the declaring property *)
+Theorem C17_struct_validate_wrong_type : forall words pu f e id un props si v,
+  xstruct_arg si v = None -> xvalidate words pu (S f) e (XObject id un props (Some si)) v = Err (cerr ERepr).
+Proof. exact struct_validate_wrong_type. Qed.
+Print Assumptions C17_struct_validate_wrong_type.
+
+Theorem C17_struct_serialize_wrong_type : forall words pu f e id un props si v,
+  xstruct_arg si v = None -> xserialize words pu (S f) e (XObject id un props (Some si)) v = Err (cerr ERepr).
+Proof. exact struct_serialize_wrong_type. Qed.
+Print Assumptions C17_struct_serialize_wrong_type.
+
+Theorem C17_struct_validate_rule : forall words pu f e id un ps1 name p ps2 si v sv,
+  xstruct_arg si v = Some sv ->
+  has_fields si (ps1 ++ (name, p) :: ps2) ->
+  (forall np y, In np (ps1 ++ (name, p) :: ps2) -> xfield_value e si sv np = Some y ->
+                xvalidate words pu f e (p_type (snd np)) y = Ok tt) ->
+  Forall (fun np => xcheck_prop_rules (fun k => amem k (xpresent e si sv (ps1 ++ (name, p) :: ps2))) (fst np) (snd np) = Ok tt) ps1 ->
+  xcheck_prop_rules (fun k => amem k (xpresent e si sv (ps1 ++ (name, p) :: ps2))) name p <> Ok tt ->
+  xvalidate words pu (S f) e (XObject id un (ps1 ++ (name, p) :: ps2) (Some si)) v = Err (cerr_at [name] EPresence).
+Proof. exact struct_validate_rule. Qed.
+Print Assumptions C17_struct_validate_rule.
+
+Theorem C17_struct_serialize_rule : forall words pu f e id un ps1 name p ps2 si v sv,
+  xstruct_arg si v = Some sv ->
+  has_fields si (ps1 ++ (name, p) :: ps2) ->
+  (forall np y, In np (ps1 ++ (name, p) :: ps2) -> xfield_value e si sv np = Some y ->
+                exists w, xserialize words pu f e (p_type (snd np)) y = Ok w) ->
+  Forall (fun np => xcheck_prop_rules (fun k => amem k (xpresent e si sv (ps1 ++ (name, p) :: ps2))) (fst np) (snd np) = Ok tt) ps1 ->
+  xcheck_prop_rules (fun k => amem k (xpresent e si sv (ps1 ++ (name, p) :: ps2))) name p <> Ok tt ->
+  xserialize words pu (S f) e (XObject id un (ps1 ++ (name, p) :: ps2) (Some si)) v = Err (cerr_at [name] EPresence).
+Proof. exact struct_serialize_rule. Qed.
+Print Assumptions C17_struct_serialize_rule.
+
+Example C17_struct_layer_faults_instance :
+  xunser w_words w_pu 12 c17s_env c17s_nested
+    (obj_val t_any_map false ([("in", xs_m [("b", vstr "qq")])] ++ ("zz", vi64 1) :: [("x", vi64 3)])) = Err (cerr EKey) /\
+  xunser w_words w_pu 12 c17s_env c17s_nested (obj_val t_any_map false [("in", xs_m [("b", vstr "qq")])])
+    = Err (cerr_at ["x"] EPresence) /\
+  xvalidate w_words w_pu 12 c17s_env c17s_nested (xs_inner_v 1 "qq") = Err (cerr ERepr) /\
+  xserialize w_words w_pu 12 c17s_env c17s_nested (VPtr (TPtr (TStruct "XNested")) None) = Err (cerr ERepr).
+Proof.
+  split; [exact c17s_unknown_key_ex|]. split; [exact c17s_missing_required_ex|].
+  split; [exact (proj1 c17s_wrong_type_ex) | exact (proj1 (proj2 c17s_wrong_type_ex))].
+Qed.
+
+(* ------------------------------------------------------------------------------------------------------
+   ORDER-FREE forms (Proofs/C17StructPos.v).  The SDK ranges over the Go map PropertiesValue (random order), the
+   model walks the property list.  With a SINGLE fault - every OTHER property fine - the premises do not mention
+   where the faulty property stands in `props`: they are invariant under permutation of `props`, so the reported
+   path is the same for every order in which the properties can be visited.
+   ------------------------------------------------------------------------------------------------------ *)
+From Verif Require Import Proofs.C17StructPos.
+
+Theorem C17_struct_unserialize_single_fault : forall words pu f e id un props name p mapped t nl r rd x er,
+  Forall (fun kv => amem (fst kv) props = true) r ->
+  NoDup (map fst props) -> In (name, p) props ->
+  xobj_data f e props mapped r = Ok rd ->
+  (forall np, In np props -> np <> (name, p) -> xprop_fine words pu f e rd np) ->
+  alookup name rd = Some x -> p_disabled p = false ->
+  xunser words pu f e (p_type p) x = Err er ->
+  xunser words pu (S f) e (XObject id un props mapped) (obj_val t nl r) = Err (add_seg name er).
+Proof. exact struct_unser_single_fault. Qed.
+Print Assumptions C17_struct_unserialize_single_fault.
+
+Theorem C17_struct_validate_single_fault : forall words pu f e id un props name p si v sv x er,
+  xstruct_arg si v = Some sv -> has_fields si props ->
+  NoDup (map fst props) -> In (name, p) props ->
+  (forall np y, In np props -> np <> (name, p) -> xfield_value e si sv np = Some y ->
+                xvalidate words pu f e (p_type (snd np)) y = Ok tt) ->
+  xfield_value e si sv (name, p) = Some x ->
+  xvalidate words pu f e (p_type p) x = Err er ->
+  xvalidate words pu (S f) e (XObject id un props (Some si)) v = Err (add_seg name er).
+Proof. exact struct_validate_single_fault. Qed.
+Print Assumptions C17_struct_validate_single_fault.
+
+Theorem C17_struct_serialize_single_fault : forall words pu f e id un props name p si v sv x er,
+  xstruct_arg si v = Some sv -> has_fields si props ->
+  NoDup (map fst props) -> In (name, p) props ->
+  (forall np y, In np props -> np <> (name, p) -> xfield_value e si sv np = Some y ->
+                exists w, xserialize words pu f e (p_type (snd np)) y = Ok w) ->
+  xfield_value e si sv (name, p) = Some x ->
+  xserialize words pu f e (p_type p) x = Err er ->
+  xserialize words pu (S f) e (XObject id un props (Some si)) v = Err (add_seg name er).
+Proof. exact struct_serialize_single_fault. Qed.
+Print Assumptions C17_struct_serialize_single_fault.
+
+(* a single violated presence rule (missing required, required_if, required_if_not, conflicts) *)
+Theorem C17_struct_unserialize_single_rule : forall words pu f e id un props name p mapped t nl r0 rd,
+  Forall (fun kv => amem (fst kv) props = true) r0 ->
+  NoDup (map fst props) -> In (name, p) props ->
+  xobj_data f e props mapped r0 = Ok rd ->
+  (forall np, In np props -> xprop_fine words pu f e rd np) ->
+  (forall np, In np props -> np <> (name, p) -> xcheck_prop_rules (fun k => amem k rd) (fst np) (snd np) = Ok tt) ->
+  xcheck_prop_rules (fun k => amem k rd) name p <> Ok tt ->
+  xunser words pu (S f) e (XObject id un props mapped) (obj_val t nl r0) = Err (cerr_at [name] EPresence).
+Proof. exact struct_unser_single_rule. Qed.
+Print Assumptions C17_struct_unserialize_single_rule.
+
+Theorem C17_struct_validate_single_rule : forall words pu f e id un props name p si v sv,
+  xstruct_arg si v = Some sv -> has_fields si props ->
+  NoDup (map fst props) -> In (name, p) props ->
+  (forall np y, In np props -> xfield_value e si sv np = Some y -> xvalidate words pu f e (p_type (snd np)) y = Ok tt) ->
+  (forall np, In np props -> np <> (name, p) ->
+              xcheck_prop_rules (fun k => amem k (xpresent e si sv props)) (fst np) (snd np) = Ok tt) ->
+  xcheck_prop_rules (fun k => amem k (xpresent e si sv props)) name p <> Ok tt ->
+  xvalidate words pu (S f) e (XObject id un props (Some si)) v = Err (cerr_at [name] EPresence).
+Proof. exact struct_validate_single_rule. Qed.
+Print Assumptions C17_struct_validate_single_rule.
+
+Theorem C17_struct_serialize_single_rule : forall words pu f e id un props name p si v sv,
+  xstruct_arg si v = Some sv -> has_fields si props ->
+  NoDup (map fst props) -> In (name, p) props ->
+  (forall np y, In np props -> xfield_value e si sv np = Some y -> exists w, xserialize words pu f e (p_type (snd np)) y = Ok w) ->
+  (forall np, In np props -> np <> (name, p) ->
+              xcheck_prop_rules (fun k => amem k (xpresent e si sv props)) (fst np) (snd np) = Ok tt) ->
+  xcheck_prop_rules (fun k => amem k (xpresent e si sv props)) name p <> Ok tt ->
+  xserialize words pu (S f) e (XObject id un props (Some si)) v = Err (cerr_at [name] EPresence).
+Proof. exact struct_serialize_single_rule. Qed.
+Print Assumptions C17_struct_serialize_single_rule.
+
+(* the path of the error is the path to the fault, for every nesting of struct-mapped / map-based objects, lists,
+   references and scopes over leaves (and whole map-based subtrees: XU_embedded / XV_embedded) in the struct layer:
+   by induction on the position (fault_xu / fault_xv / fault_xs, Proofs/C17StructPos.v).  Not covered by the
+   relations: maps and one-ofs over struct-mapped members, `any`, the single-property shorthand, Serialize of lists. *)
+Theorem C17_struct_single_fault_path_unserialize : forall words pu e f s v q, fault_xu words pu e f s v q ->
+  exists c, xunser words pu f e s v = Err (mkErr true q c).
+Proof. exact struct_single_fault_path_unser. Qed.
+Print Assumptions C17_struct_single_fault_path_unserialize.
+
+Theorem C17_struct_single_fault_path_validate : forall words pu e f s v q, fault_xv words pu e f s v q ->
+  exists c, xvalidate words pu f e s v = Err (mkErr true q c).
+Proof. exact struct_single_fault_path_validate. Qed.
+Print Assumptions C17_struct_single_fault_path_validate.
+
+Theorem C17_struct_single_fault_path_serialize : forall words pu e f s v q, fault_xs words pu e f s v q ->
+  exists c, xserialize words pu f e s v = Err (mkErr true q c).
+Proof. exact struct_single_fault_path_serialize. Qed.
+Print Assumptions C17_struct_single_fault_path_serialize.
+
+(* non-vacuity: XNested{In: {1,"qq"}, P: &{1,"q"}, X: 3} / {"in": {"b": "qq"}, "p": {"b": "q"}, "x": 3} - the position
+   ["p"; "b"] is reached through the struct-mapped XNested, the reference and the struct-mapped XInner *)
+Example C17_struct_position_instance :
+  fault_xu w_words w_pu c17s_env 12 c17s_nested (obj_val t_any_map false c17s_raw) ["p"; "b"] /\
+  fault_xv w_words w_pu c17s_env 12 c17s_nested c17s_native ["p"; "b"] /\
+  fault_xs w_words w_pu c17s_env 12 c17s_nested c17s_native ["p"; "b"].
+Proof. exact (conj c17s_pos_unser_ex (conj c17s_pos_validate_ex c17s_pos_serialize_ex)). Qed.
+
+(* a one-of over struct-mapped members, given a NATIVE struct value: the member is found by the reflected type of the
+   value (findUnderlyingType); Validate puts the {oneof[k]} marker in front of the member's path, Serialize passes the
+   member's error on unchanged; a value whose type no member has is reported at the one-of *)
+Theorem C17_struct_oneof_native_validate_path : forall words pu f e types ik field inlined v tv key member er,
+  xnative_struct v tv ->
+  find (fun ks => match xstruct_rtype e (snd ks) with Some t => gtype_eqb t tv | None => false end) types = Some (key, member) ->
+  xvalidate words pu (S f) e member v = Err er ->
+  xvalidate words pu (S (S f)) e (XOneOf types ik field inlined) v = Err (add_seg (oneof_seg key) er).
+Proof. exact struct_oneof_native_validate_path. Qed.
+Print Assumptions C17_struct_oneof_native_validate_path.
+
+Theorem C17_struct_oneof_native_serialize_path : forall words pu f e types ik field inlined v tv key member er,
+  xnative_struct v tv ->
+  find (fun ks => match xstruct_rtype e (snd ks) with Some t => gtype_eqb t tv | None => false end) types = Some (key, member) ->
+  xserialize words pu (S f) e member v = Err er ->
+  xserialize words pu (S (S f)) e (XOneOf types ik field inlined) v = Err er.
+Proof. exact struct_oneof_native_serialize_path. Qed.
+Print Assumptions C17_struct_oneof_native_serialize_path.
+
+Theorem C17_struct_oneof_native_no_member : forall words pu f e types ik field inlined v tv,
+  xnative_struct v tv ->
+  find (fun ks => match xstruct_rtype e (snd ks) with Some t => gtype_eqb t tv | None => false end) types = None ->
+  xvalidate words pu (S (S f)) e (XOneOf types ik field inlined) v = Err (cerr ERepr) /\
+  xserialize words pu (S (S f)) e (XOneOf types ik field inlined) v = Err (cerr ERepr).
+Proof. exact struct_oneof_native_no_member. Qed.
+Print Assumptions C17_struct_oneof_native_no_member.
+
+Example C17_struct_oneof_native_instance :
+  xvalidate w_words w_pu 12 c17s_env c17s_oneof (xs_inner_v 1 "q") = Err (mkErr true ["{oneof[inner]}"; "b"] EBound) /\
+  xserialize w_words w_pu 12 c17s_env c17s_oneof (xs_inner_v 1 "q") = Err (mkErr true ["b"] EBound).
+Proof. exact c17s_oneof_native_ex. Qed.
